@@ -312,3 +312,41 @@ theorem tcp_pool_eq_seq {U : Type} (P : UptimeParams U) (fc : Seg → Bool) (has
 end Bridge
 
 end Huginn.Props.C10
+
+namespace Huginn.Props.C10
+open Huginn.Pool
+
+/-! ### non-vacuity: a stateless analyzer is isolated on every trace, and a concrete two-worker run reaches
+quiescence without drops and delivers the sequential results -/
+
+def echoW : Worker Unit Nat Nat := { init := (), step := fun s p => (s, some (p * 10)) }
+
+private theorem echo_seq (tr : List Nat) : seqOuts echoW () tr = tr.map (fun p => (p, p * 10)) := by
+  induction tr with
+  | nil => rfl
+  | cons p tr ih =>
+    simp only [seqOuts, List.map_cons]
+    show (p, p * 10) :: seqOuts echoW () tr = _
+    rw [ih]
+
+example (route : Nat → Option Nat) (tr : List Nat) : WorkerIsolatedOn echoW route tr := by
+  intro w
+  show seqOuts echoW () _ = (seqOuts echoW () tr).filter _
+  rw [echo_seq, echo_seq, List.filter_map]
+  rfl
+
+def echoCfg : Cfg Nat := { n := 2, qcap := 4, route := fun p => some (p % 2), attemptCounted := false,
+                            errCountsWorkerDropped := false }
+def echoSched : List (Step Nat) := [.dispatch 1, .dispatch 2, .dispatch 3, .work 1, .incD, .work 0, .incD, .work 1, .incD]
+
+example : (run echoCfg echoW (init echoW) echoSched).results = [(1, 1, 10), (0, 2, 20), (1, 3, 30)] ∧
+    dispatchesOf echoSched = [1, 2, 3] ∧
+    (∀ x ∈ (run echoCfg echoW (init echoW) echoSched).outcomes, ∃ w, x.2 = .queued w) := by
+  refine ⟨by decide, by decide, ?_⟩
+  intro x hx
+  have : (run echoCfg echoW (init echoW) echoSched).outcomes = [(1, .queued 1), (2, .queued 0), (3, .queued 1)] := by decide
+  rw [this] at hx
+  simp at hx
+  rcases hx with rfl | rfl | rfl <;> exact ⟨_, rfl⟩
+
+end Huginn.Props.C10
